@@ -561,11 +561,142 @@ def extract():
     if not x0_sites:
         raise TranslatorError("no construction of an optimiser found (Optimizer / InitialGuessOptimizer)")
 
+    gwrites = []
+    for mod in mods:
+        gwrites += global_writes_of(mod, ctx_of)
     nested = nested_defaults()
     algos, hourly = defaults_by_introspection()
-    return {"nested": nested, "files": files, "sites": sites, "uses": uses, "assigns": assigns, "x0_sites": x0_sites,
+    return {"gwrites": gwrites, "nested": nested, "files": files, "sites": sites, "uses": uses, "assigns": assigns, "x0_sites": x0_sites,
             "bindings": [{"func": f, "param": p, "args": a} for (f, p), a in sorted(bindings.items())],
             "mdefaults": mdefaults, "algorithms": algos, "hourly": hourly}
+
+
+GLOBAL_CONFIG_CALLS = {
+    "sklearn.set_config", "numpy.seterr", "numpy.seterrcall", "numpy.random.seed", "pandas.set_option", "pandas.reset_option",
+    "logging.basicConfig", "logging.disable", "os.putenv", "os.unsetenv", "os.chdir", "os.environ.update", "os.environ.setdefault",
+    "os.environ.pop", "os.environ.clear", "numba.set_num_threads", "nlopt.srand", "nlopt.srand_time", "warnings.filterwarnings",
+    "warnings.simplefilter", "warnings.resetwarnings", "random.seed", "sys.setrecursionlimit", "locale.setlocale",
+    "matplotlib.use", "importlib.reload",
+}
+CONTAINER_MAKERS = {"list", "dict", "set", "defaultdict", "OrderedDict", "deque", "Counter", "collections.defaultdict",
+                    "collections.OrderedDict", "collections.deque", "collections.Counter"}
+
+
+def chain_root(node):
+    """the Name at the bottom of a chain of attributes / subscripts / calls, and whether the chain is longer than the name"""
+    depth = 0
+    while isinstance(node, (ast.Attribute, ast.Subscript)):
+        node = node.value
+        depth += 1
+    return (node.id if isinstance(node, ast.Name) else None), depth
+
+
+def global_writes_of(mod, ctx_of):
+    """statements that write state shared by the whole process: `global`, assignment through an imported name
+    (module attribute, class attribute, module-level container of another module), mutation of a module-level container
+    of this module from inside a function, calls of process-wide configuration functions"""
+    import types
+    out = []
+    top = {}          # module-level names -> value node (None when not a simple assignment)
+    for st in mod.tree.body:
+        if isinstance(st, ast.Assign):
+            for t in st.targets:
+                if isinstance(t, ast.Name):
+                    top[t.id] = st.value
+        elif isinstance(st, ast.AnnAssign) and isinstance(st.target, ast.Name):
+            top[st.target.id] = st.value
+        elif isinstance(st, (ast.FunctionDef, ast.AsyncFunctionDef, ast.ClassDef)):
+            top[st.name] = None
+
+    def scope(n):
+        return mod.qual(n) if mod.enclosing(n, (ast.FunctionDef, ast.AsyncFunctionDef)) is not None else "<import>"
+
+    def is_local(n, name):
+        fn = mod.enclosing(n, (ast.FunctionDef, ast.AsyncFunctionDef))
+        while fn is not None:
+            c = FnCtx(mod, fn)
+            if name in c.params or name in c.assigns or name in c.loopvars:
+                return True
+            fn = mod.enclosing(fn, (ast.FunctionDef, ast.AsyncFunctionDef))
+        return False
+
+    def is_container(v):
+        return isinstance(v, (ast.List, ast.Dict, ast.Set, ast.ListComp, ast.DictComp, ast.SetComp)) or \
+            (isinstance(v, ast.Call) and dotted(v.func) in CONTAINER_MAKERS)
+
+    def in_catch_warnings(n):
+        w = n
+        while w in mod.parent:
+            w = mod.parent[w]
+            if isinstance(w, ast.With):
+                for it in w.items:
+                    e = it.context_expr
+                    if isinstance(e, ast.Call) and (dotted(e.func) or "").endswith("catch_warnings"):
+                        return True
+        return False
+
+    def store_target(n, t):
+        if isinstance(t, (ast.Tuple, ast.List)):
+            for e in t.elts:
+                store_target(n, e)
+            return
+        if isinstance(t, ast.Starred):
+            store_target(n, t.value)
+            return
+        root, depth = chain_root(t)
+        txt = ast.unparse(t)
+        if depth > 0 and (root == "cls" or "__class__" in txt or txt.startswith("type(")):
+            # a class attribute: shared by every instance in the process
+            out.append({"file": mod.rel, "scope": scope(n), "kind": "GModuleObject", "target": txt[:60], "line": n.lineno})
+            return
+        if root is None or depth == 0:
+            return                 # a plain name: local (or declared `global`, reported separately)
+        if is_local(n, root):
+            return
+        if root in mod.imports:
+            out.append({"file": mod.rel, "scope": scope(n), "kind": "GImported", "target": ast.unparse(t)[:60], "line": n.lineno})
+        elif root in top and scope(n) != "<import>":
+            out.append({"file": mod.rel, "scope": scope(n), "kind": "GModuleObject", "target": ast.unparse(t)[:60], "line": n.lineno})
+
+    for n in ast.walk(mod.tree):
+        if isinstance(n, (ast.Global, ast.Nonlocal)) and isinstance(n, ast.Global):
+            out.append({"file": mod.rel, "scope": scope(n), "kind": "GGlobalStmt", "target": ",".join(n.names), "line": n.lineno})
+        elif isinstance(n, ast.Assign):
+            for t in n.targets:
+                store_target(n, t)
+        elif isinstance(n, (ast.AugAssign, ast.AnnAssign)):
+            if not (isinstance(n, ast.AnnAssign) and n.value is None):
+                store_target(n, n.target)
+        elif isinstance(n, ast.Delete):
+            for t in n.targets:
+                store_target(n, t)
+        elif isinstance(n, ast.Call):
+            d = dotted(n.func)
+            if d is None:
+                continue
+            head, *rest = d.split(".")
+            if head in mod.imports and not is_local(n, head):
+                full = ".".join([mod.imports[head]] + rest)
+                if full in GLOBAL_CONFIG_CALLS:
+                    if full.startswith("warnings.") and in_catch_warnings(n):
+                        continue       # restored when the `with warnings.catch_warnings()` block ends
+                    out.append({"file": mod.rel, "scope": scope(n), "kind": "GConfigCall", "target": full, "line": n.lineno})
+                    continue
+            # mutation of a container: <obj>.append(...) etc.
+            if isinstance(n.func, ast.Attribute) and n.func.attr in MUTATORS:
+                root, depth = chain_root(n.func.value)
+                if root is None or is_local(n, root):
+                    continue
+                if root in mod.imports:
+                    base = resolve_object(mod, n.func.value)
+                    if base is None or isinstance(base, types.ModuleType) or callable(base):
+                        continue       # a function of a module (np.sort, ...), not a method of a shared object
+                    out.append({"file": mod.rel, "scope": scope(n), "kind": "GImported",
+                                "target": ast.unparse(n.func)[:60] + "()", "line": n.lineno})
+                elif root in top and scope(n) != "<import>" and (depth > 0 or is_container(top[root])):
+                    out.append({"file": mod.rel, "scope": scope(n), "kind": "GModuleObject",
+                                "target": ast.unparse(n.func)[:60] + "()", "line": n.lineno})
+    return out
 
 
 X0_CALLEES = {"Optimizer", "InitialGuessOptimizer", "SciPyOptimizer", "NLoptOptimizer", "obj_fcn_dec"}
@@ -766,6 +897,10 @@ def render(ex):
         "  {| m_file := %s; m_func := %s; m_param := %s; m_pydantic := %s; m_usage := %s; m_calls := %d; m_explicit := %d |}" % (
             q(m["file"]), q(m["func"]), q(m["param"]), "true" if m["pydantic"] else "false", m["usage"], m["calls"], m["explicit"])
         for m in ex["mdefaults"]))
+    L.append("].\n")
+    L.append("Definition global_writes : list gwrite := [")
+    L.append(";\n".join("  {| w_file := %s; w_scope := %s; w_kind := %s; w_target := %s |}" % (
+        q(w["file"]), q(w["scope"]), w["kind"], q(w["target"])) for w in ex["gwrites"]))
     L.append("].\n")
     L.append("Definition nested_defaults : list (string * string * ndkind) := [")
     L.append(";\n".join("  (%s, %s, %s)" % (q(n["cls"]), q(n["field"]), n["kind"]) for n in ex["nested"]))
